@@ -567,3 +567,89 @@ def systematic_histories(tops):
         for x in ALL_TRANS:
             out.append((a2, [op_on(x, (0,))] + top_ops + [("ACCEnterData", ("sched", (0,)), {})]))
     return out
+
+
+def targeted_serial_histories():
+    """depth-4 histories that put another OpenMP directive between two serial (single/master) regions inside one
+    parallel region, applied outermost-first (the serial transformations refuse to ENCLOSE a serial region, so
+    only this order can produce it) and innermost-first; the inner region wraps the statements of the loop body
+    or an inner loop"""
+    L = lambda *b: ("L", tuple(b))   # noqa: E731
+    out = []
+    for skel, n_body in (((L(S, S),), 2), ((L(L(S)),), 1), ((L(L(S), S),), 2)):
+        for outer in ("OMPSingle", "OMPMaster"):
+            for mid in ("OMPTaskloop", "OMPDo", "OMPLoop", "OMPParallelDo"):
+                for inner in ("OMPSingle", "OMPMaster"):
+                    top = ("range", (), 0, 1)
+                    m = (mid, ("node", (0,)), {"force": True})
+                    # outermost-first: mid on the loop, outer serial region around it, parallel around that, then
+                    # the inner serial region on the loop body (loop is now at Parallel > outer > mid > loop)
+                    out.append((skel, [m, (outer, top, {}), ("OMPParallel", top, {}),
+                                       (inner, ("range", (0, 0, 0, 0), 0, n_body), {})]))
+                    # parallel first
+                    out.append((skel, [("OMPParallel", top, {}), (mid, ("node", (0, 0)), {"force": True}),
+                                       (outer, ("range", (0,), 0, 1), {}),
+                                       (inner, ("range", (0, 0, 0, 0), 0, n_body), {})]))
+                    # innermost-first
+                    out.append((skel, [(inner, ("range", (0,), 0, n_body), {}), m, (outer, top, {}),
+                                       ("OMPParallel", top, {})]))
+    return out
+
+
+# ------------------------------------------------------------------ compact case strings (coq/C10/Decode.v)
+B36 = "0123456789abcdefghijklmnopqrstuvwxyz"
+SKL = ["OMPTaskwait", "ACCEnterData", "ACCRoutine"]
+TRANS_ORDER = ["OMPDo", "OMPParallelDo", "OMPTeamsParDo", "OMPLoop", "OMPParallelLoopTrans", "OMPTaskloop", "ACCLoop",
+               "OMPParallel", "OMPSingle", "OMPMaster", "OMPTarget", "ACCParallel", "ACCKernels", "ACCData", "ACCEnterData"]
+
+
+def d36(n):
+    if not 0 <= n < 36:
+        raise ValueError("number %r does not fit one base-36 digit" % (n,))
+    return B36[n]
+
+
+def enc_forest(f):
+    out = []
+    for t in f:
+        tag = t[0]
+        if tag == "S":
+            out.append("A")
+        elif tag == "R":
+            out.append("R")
+        elif tag == "C":
+            out.append("C")
+        elif tag == "L":
+            out.append("L" + enc_forest(t[1]) + ")")
+        elif tag == "I":
+            out.append("I" + enc_forest(t[1]) + ")")
+        elif tag == "D":
+            out.append("D" + d36(DK.index(CLASS_DK[t[1]])) + d36(t[2] or 0) + enc_forest(t[3]) + ")")
+        else:
+            out.append("S" + d36(SKL.index(CLASS_SK[t[1]])))
+    return "".join(out)
+
+
+def enc_op(op, dep_ok):
+    name, target, options = op
+    s = d36(TRANS_ORDER.index(name))
+    if target[0] == "node":
+        s += "n" + "".join(d36(x) for x in target[1][:-1]) + ";" + d36(target[1][-1])
+    elif target[0] == "range":
+        s += "r" + "".join(d36(x) for x in target[1]) + ";" + d36(target[2]) + d36(target[3])
+    else:
+        s += "s" + "".join(d36(x) for x in target[1]) + ";"
+    c = (options or {}).get("collapse")
+    return s + d36(c or 0) + ("t" if dep_ok else "f")
+
+
+def enc_codes(l):
+    return "".join(d36(x // 36) + d36(x % 36) for x in l)
+
+
+def enc_step(before, op, dep_ok, verdict, after):
+    return '"%s|%s|%d|%s"' % (enc_forest(before), enc_op(op, dep_ok), verdict, enc_forest(after))
+
+
+def enc_final(tree, verdict, wf, cc):
+    return '"%s|%d|%s|%s"' % (enc_forest(tree), verdict, enc_codes(wf), enc_codes(cc))
